@@ -372,10 +372,9 @@ func singleParts(n *pb.Notification) []*pb.Notification {
 	}
 	var out []*pb.Notification
 	base := func() *pb.Notification {
-		c := &pb.Notification{Timestamp: n.GetTimestamp()}
-		if n.GetPrefix() != nil {
-			c.Prefix = proto.Clone(n.GetPrefix()).(*pb.Path)
-		}
+		// The same notification without its parts (unknown fields kept).
+		c := proto.Clone(n).(*pb.Notification)
+		c.Update, c.Delete = nil, nil
 		return c
 	}
 	for _, u := range n.GetUpdate() {
